@@ -24,6 +24,11 @@ CLAIMS = {
   text="Proved in Lean for every dataset (list of sequences), warm-up and lambda>0: the model's buffers equal the sums of x~x~^T and y x~^T over exactly the retained timesteps (C04_accumulate), warm-up rows have no influence (C04_warmup_irrelevant), any W passing the exact normal-equation certificate is the unique minimiser of sum ||V^T x~ - y||^2 + lambda ||V||^2 over the retained timesteps, bias and weights regularised together (C04_gap, C04_optimal, C04_fit_optimal, C04_unique_solution), prediction = Wout^T x + bias and the bias/weight split is the raw solution on the augmented input (C04_predict, C04_split_bias). Tied to the code by running the same model on exact rationals from the same dyadic/integer data: Ridge.fit's Wout/bias are compared with the certified exact optimum (1e-9) and their exact normal-equation residual is computed by the model; arrays, 3-D arrays, ragged lists, all dtypes, wild warm-up rows, an ill-conditioned stream.",
   note="Trusted: Lean kernel + standard axioms; lean/RpyModel/Readout.lean; the harness. The Gauss-Jordan solver in the model is untrusted (its output is used only after the exact certificate). Not verified: scipy.linalg.solve / BLAS rounding (bounded by the 1e-9 comparison on the generated conditioning range).",
   design="§6 C04"),
+ "C10": dict(
+  technique="Lean 4 proof over any linearly ordered field (Sherman-Morrison invariant, induction over all sample lists; list induction for gating) + correspondence in exact rationals (RLS/LMS/FORCE) and in Float (intrinsic plasticity)",
+  text="Proved in Lean: from zero weights and P0=I/alpha (alpha>0), after ANY list of samples P*(alpha I + sum r r^T)=1 and (alpha I + sum r r^T) w = sum r y^T (C10_rls_is_ridge; the gain denominator is >= 1), hence w is the unique regularised least-squares optimum with lambda=alpha on the samples seen so far (C10_rls_optimal, via C04_optimal); the executable rlsStep is exactly that recursion (rlsStep_P/rlsStep_w); LMS performs w - alpha_n (pred - y) r^T and consumes exactly one schedule element per update; a training call updates exactly on the steps i with i % learn_every = 0 (or the single step of a one-step call) and returns for each step the prediction made before that step's update; the IP gradient steps are the documented formulas and a fit applies them epochs x timesteps times in order. Tied to the code by running the same definitions on exact rationals against RLS / LMS / FORCE trained in random splits of successive train calls (weights, bias, P after every call, every output; 1e-9) together with the closed form, and on Float against IPReservoir.fit (a, b, state).",
+  note="Trusted: Lean kernel + standard axioms; lean/RpyModel/Online.lean; the harness. Not verified: float rounding of the recursions (1e-9 on <= 40 well-conditioned updates), libm tanh/exp in the Float regime.",
+  design="§6 C10"),
 }
 
 NOT_YET = "check not built yet in this revision (planned, see DESIGN.md §11)"
